@@ -190,3 +190,16 @@ Example C15_empty_encoding_not_written :
   r_end r = IDone (Some tt) /\
   try_from_accounts unit de PID_B 1 DISC_ST (begin_instr true (r_acct r)) = Ok None.
 Proof. exact empty_encoding_not_written. Qed.
+
+(* a manual serialize() only WRITES the wrapper's value back: whatever its outcome, the wrapper holds what it held, and a
+   wrapper that holds a value is read without a panic (the wrapper is not emptied by a flush before a CPI) *)
+Theorem C15_manual_serialize_keeps_the_value :
+  forall (T : Type) (ser : T -> list Z) (de : list Z -> option (T * list Z)) (fixed : bool) (pid : key) (w : nat)
+         (a : bacct) (ov : option T) r a' ov',
+    step T ser de fixed pid w OSerialize a ov = (r, a', ov') ->
+    ov' = ov /\ (forall t, ov = Some t -> step T ser de fixed pid w ORead a' ov' = (SVal t, a', ov')).
+Proof.
+  intros T ser de fixed pid w a ov r a' ov' H. cbn [step] in H.
+  destruct (serialize T ser fixed pid w a ov) as [a1|c| |]; injection H as <- <- <-;
+    (split; [reflexivity|intros t ->; reflexivity]).
+Qed.
